@@ -6,6 +6,9 @@ sys.path.insert(0, os.path.join(ROOT, "tools"))
 from props import PROPS, NOT_APPLICABLE
 
 ALL = ["C%02d" % i for i in range(1, 21)]
+# only checks that were reviewed and confirmed clean on the unchanged tree are claimed
+CLAIMED = [l.strip() for l in open(os.path.join(ROOT, "tools", "claimed.txt")) if l.strip() and not l.startswith("#")]
+PROPS = {k: v for k, v in PROPS.items() if k in CLAIMED}
 checks = []
 for pid in sorted(PROPS):
     s = PROPS[pid]
